@@ -38,6 +38,18 @@ impl Engine for SimEngine {
             Tier::Quick => self.max_len,
             Tier::Thorough => self.max_len * 2,
         };
+        if self.prop == "C09" {
+            // any panic counts: next to the uniformly weighted chaos profile, the profiles of
+            // the other checks (time-limited workers, time steps, launch failures, ...)
+            let u = proptest::prop_oneof![
+                6 => sim::case_strategy(self.profile, len, self.eager_ratio),
+                1 => sim::case_strategy("steal2", len, self.eager_ratio),
+                1 => sim::case_strategy("placement2", len, self.eager_ratio),
+                1 => sim::case_strategy("progress2", len, self.eager_ratio),
+                1 => sim::case_strategy("resources", len, self.eager_ratio),
+            ];
+            return common::boxed(u);
+        }
         sim::case_strategy(self.profile, len, self.eager_ratio)
     }
     fn quick_cases(&self) -> usize {
